@@ -32,6 +32,23 @@ pub fn foo(n: i32) -> f32 {
     n as f32 * 1.5
 }
 
+// bare identifiers a user may have bound to an easing — deliberately *not* the curves the CSS keywords of the same
+// name stand for: `timeline!(… ease …)` must use this `ease`
+#[allow(non_upper_case_globals)]
+mod idents {
+    use mina::Easing;
+    pub const ease: Easing = Easing::InOutBack;
+    pub const linear: Easing = Easing::OutQuint;
+    pub const ease_in: Easing = Easing::OutCirc;
+    pub const ease_out: Easing = Easing::InSine;
+    pub const ease_in_out: Easing = Easing::InExpo;
+    pub const my_ease: Easing = Easing::OutBack;
+    pub const EASE: Easing = Easing::InQuad;
+    pub const step_end: Easing = Easing::InOutQuart;
+    pub const bounce: Easing = Easing::OutCubic;
+}
+pub use idents::*;
+
 pub mod my {
     pub mod easing {
         pub const CUSTOM: mina::Easing = mina::Easing::InOutCubic;
